@@ -3,13 +3,32 @@ mod c05;
 mod c06;
 mod c08;
 mod c09;
+mod c10;
 mod c15;
 mod c16;
 mod c18;
 mod env;
 mod kc;
+mod ovl;
 
 use vkit::run::{Args, Report};
+
+/// look a path up in a layer spec
+pub fn ovl_spec_get<'a>(spec: &'a std::collections::BTreeMap<String, ovl::Spec>, path: &str) -> Option<&'a ovl::Spec> {
+    let mut cur = spec;
+    let comps: Vec<&str> = path.split('/').collect();
+    for (i, c) in comps.iter().enumerate() {
+        let n = cur.get(*c)?;
+        if i + 1 == comps.len() {
+            return Some(n);
+        }
+        match n {
+            ovl::Spec::Dir { children, .. } => cur = children,
+            _ => return None,
+        }
+    }
+    None
+}
 
 fn main() {
     let args = Args::parse();
@@ -23,6 +42,7 @@ fn main() {
         "C06" => c06::run(&args, &mut rep),
         "C08" => c08::run(&args, &mut rep),
         "C09" => c09::run(&args, &mut rep),
+        "C10" | "C11" => c10::run(&args, &mut rep),
         "C15" => c15::run(&args, &mut rep),
         "C16" => c16::run(&args, &mut rep),
         "C18" => c18::run(&args, &mut rep),
